@@ -70,6 +70,8 @@ def run(ctx):
             kw["log_q"] = [1.0, 1.0, 2.0]
         if cname == "SMCSamples":
             kw.update(beta=0.5, log_evidence=-3.5, log_evidence_error=0.25)
+        if cname == "Samples" and not all(fields):
+            kw.update(log_evidence=-7.5, log_evidence_error=0.125)      # a weightless set carrying an evidence: every SMC result
         d = None if sp == "none" else (w if sp == "str" else nsutil.native_dtype(ns, w))
         return classes[cname](x, xp=NS[ns], dtype=d, **kw)
 
